@@ -48,7 +48,7 @@ def parse_assumption_blocks(out):
     return blocks
 
 
-def check_proofs(prop, tier):
+def check_proofs(prop, tier, extra_targets=()):
     """Re-check every proof obligation of the property from source."""
     info = dict(obligations=0, discharged=0, theorems=[], failed=[], axioms=[],
                 hygiene=[], checker_cmd='', wall_s=0.0, log_tail='')
@@ -64,7 +64,7 @@ def check_proofs(prop, tier):
     info['hygiene'] = C.hygiene(C.dep_sources('Properties/%s.v' % prop))
     info['checker_cmd'] = ('make -C coq Properties/%s.vo (coq_makefile, full .vo build) ; '
                            'coqc -Q coq Spowtd coq/Properties/%s.v (Print Assumptions)' % (prop, prop))
-    rc, out, _ = C.make(['Properties/%s.vo' % prop])
+    rc, out, _ = C.make(['Properties/%s.vo' % prop] + list(extra_targets))
     if rc != 0:
         info['failed'].append('make Properties/%s.vo failed' % prop)
         info['log_tail'] = out[-3000:]
@@ -167,7 +167,7 @@ def main(argv=None):
     info = dict(obligations=0, discharged=0, theorems=[], failed=[], axioms=[], hygiene=[],
                 checker_cmd='skipped', wall_s=0.0)
     if not args.no_proofs:
-        info = check_proofs(prop, tier)
+        info = check_proofs(prop, tier, getattr(mod, 'MODELS', ()))
     crashed = None
     try:
         mod.run(dict(seed=seed, tier=tier), out)
